@@ -2003,7 +2003,7 @@ func innerBlockInInline(box Box, skipStack tree.ResumeStack) (Box, Box, tree.Res
 			index += 1 // Resume *after* the block
 		} else {
 			var newChild Box
-			if InlineT.IsInstance(child) {
+			if InlineT.IsInstance(child) && !child.Box().IsRunning() {
 				newChild, blockLevelBox, resumeAt = innerBlockInInline(child, skipStack)
 				skipStack = nil
 			} else {
